@@ -104,6 +104,7 @@ func c09Precedence(dec config.DecoderType) {
 		vCheck("H2.config.header.added", req.Header.Get("A") == "conf")
 	}
 	vCheck("H2.config.only.header.added", req.Header.Get("B") == "conf")
+	vObserve("headers", int64(len(req.Header)))
 	if dec == config.DecoderRaw {
 		vCheck("H2.host.of.file.kept", req.Host == "file.host")
 	} else {
